@@ -312,7 +312,7 @@ fn rounding(ctx: &mut Ctx) {
 
 fn run(ctx: &mut Ctx) {
     let arena = Arena::new(2);
-    let max_len = if ctx.quick() { 48 } else { 72 };
+    let max_len = if ctx.quick() { 48 } else { 128 };
     ctx.bound("slices", format!("slice lengths 0..={} x start alignments 0..7 x declared sizes 0..={} + EDGE32, per header kind; slices end at most 7 bytes before a PROT_NONE guard page (0 bytes for every accepted slice); each leaf executed under fill A and fill B", max_len, max_len + 24));
     ctx.bound("header_kinds", "DummyTestHeader, TagHeader, BootInformationHeader, HeaderTagHeader, Multiboot2BasicHeader");
     if !ctx.uniform() {
